@@ -148,6 +148,7 @@ type gen struct {
 	SDS      *thor.Address // ADDRESS SELFDESTRUCT contract (finding F3)
 	UZ       *thor.Address // U instance holding VTHO but ZERO VET, self-destructed to a third party
 	UV       *thor.Address // U instance holding VET but never given VTHO, self-destructed to the tx origin
+	UP       *thor.Address // "poor" U instance: credit plan and a user, but no energy and no sponsor -> the ORIGIN pays although commonTo/credit apply
 	US       *thor.Address // "sleeper" U instance: holds VET, untouched from block 1 until well after HAYABUSA, then forwards VET
 	stats    map[string]int
 	limit    uint64 // gas limit of the block being generated
@@ -305,9 +306,10 @@ func (g *gen) blockTxs(parent *chain.BlockSummary, step int, full bool) []*tx.Tr
 		add("create", g.mk(parent, 5, txOpt{gas: 1_500_000, delegator: -1}, tx.NewClause(nil).WithData(sim.InitCode(sim.UCode(), nil, nil))))
 		add("create", g.mk(parent, 6, txOpt{gas: 1_500_000, delegator: -1}, tx.NewClause(nil).WithValue(vet(2)).WithData(sim.InitCode(sim.UCode(), nil, nil))))
 		add("create", g.mk(parent, 7, txOpt{gas: 1_500_000, delegator: -1}, tx.NewClause(nil).WithValue(vet(50)).WithData(sim.InitCode(sim.UCode(), nil, nil))))
+		add("create", g.mk(parent, 8, txOpt{gas: 1_500_000, delegator: -1}, tx.NewClause(nil).WithData(sim.InitCode(sim.UCode(), w(3), w(4)))))
 		return txs
 	case 2:
-		if g.U == nil || g.SDS == nil || g.U2 == nil || g.UZ == nil || g.UV == nil || g.US == nil {
+		if g.U == nil || g.SDS == nil || g.U2 == nil || g.UZ == nil || g.UV == nil || g.US == nil || g.UP == nil {
 			harnessError("contracts were not deployed in block 1")
 		}
 		add("energy", g.mk(parent, 3, none, call(builtin.Energy.Address, energyData("transfer", *g.U, vet(5000))),
@@ -318,6 +320,8 @@ func (g *gen) blockTxs(parent *chain.BlockSummary, step int, full bool) []*tx.Tr
 			call(builtin.Prototype.Address, protoData("addUser", *g.U, g.addr(5))),
 			call(builtin.Prototype.Address, protoData("addUser", *g.U, g.addr(6))))) // the sponsor is also a user: sponsor = origin
 		add("sponsor", g.mk(parent, 6, none, call(builtin.Prototype.Address, protoData("sponsor", *g.U))))
+		add("creditplan-poor", g.mk(parent, 8, none, call(builtin.Prototype.Address, protoData("setCreditPlan", *g.UP, vet(2000), w(1_000_000_000_000_000))),
+			call(builtin.Prototype.Address, protoData("addUser", *g.UP, g.addr(5)))))
 		return txs
 	case 3:
 		add("selectsponsor", g.mk(parent, 3, none, call(builtin.Prototype.Address, protoData("selectSponsor", *g.U, g.addr(6)))))
@@ -349,6 +353,10 @@ func (g *gen) blockTxs(parent *chain.BlockSummary, step int, full bool) []*tx.Tr
 	}
 	// ---- deterministic shapes (every profile) -------------------------------------------------------------------
 	proposer := step % 3
+	if step == 10 || step == 21 || (step > 30 && step%9 == 0) {
+		// the user has credit at a contract that cannot pay and has no sponsor: the origin pays, and the refund is the origin's
+		add("credit-user-pays-himself", g.mk(parent, 5, none, call(*g.UP, sim.UCall(sim.OpStore, w(int64(step)), w(1)))))
+	}
 	if step == 9 {
 		// re-entrant double SELFDESTRUCT inside one clause
 		add("double-suicide", g.mk(parent, 4, txOpt{gas: 400_000, delegator: -1}, tx.NewClause(&addrDA)))
@@ -882,6 +890,8 @@ func runProfile(prof string, seed int64, blocks int, evs *[]trace.Ev) runStat {
 					g.UV = &a
 				case 5:
 					g.US = &a
+				case 6:
+					g.UP = &a
 				}
 			}
 		}
